@@ -185,7 +185,7 @@ func (P *Program) verifyFunc(fn *ssa.Function, fc *FuncContract, mode Mode) *Fun
 		if nret > 1 {
 			suffix = fmt.Sprintf("@ret%d", r.ord)
 		}
-		post := &SpecEnv{c: c, fr: fr, vars: map[string]Val{}, st: r.st, old: st0, oldAlloc: "alloc0", pkg: pkg, results: r.results, resultNames: resultNames(fn.Signature)}
+		post := &SpecEnv{c: c, fr: fr, vars: map[string]Val{}, st: r.st, old: st0, oldAlloc: "alloc0", pkg: pkg, results: r.results, resultNames: resultNames(fn.Signature), paramsAtEntry: true}
 		for _, e := range fc.Defines {
 			// the function's own result defines the abstraction
 			fr.assumeR(post.trBool(e.Expr))
@@ -223,7 +223,7 @@ func (P *Program) verifyFunc(fn *ssa.Function, fc *FuncContract, mode Mode) *Fun
 			c.assumed["frame of sort "+k+" not claimed for "+res.Func+" (opt noframe/havoc)"] = true
 		}
 		for _, k := range ks {
-			if noframe[k] || (isPkgInit(fn) && !fc.ModSet) {
+			if noframe[k] || ((isPkgInit(fn) || isInitCallee(fn)) && !fc.ModSet) {
 				// a package initialiser exists to write the package's variables: no frame is claimed
 				continue
 			}
